@@ -29,6 +29,8 @@ type Demand struct {
 	inprog     map[string]bool
 	Steps      int
 	MaxDepth   int
+	// ExemptCall may replace the requirement at a caller's call site (table exceptions, each with its own obligation)
+	ExemptCall func(cs *Site, g *Formula) *Formula
 }
 
 func (a *Analysis) newDemand(roots []*FuncInfo) *Demand {
@@ -46,7 +48,7 @@ func hasLocalTerm(t *Term) bool {
 		return false
 	}
 	switch t.K {
-	case KLocal, KElem, KOpaque, KCount, KExists:
+	case KLocal, KElem, KOpaque:
 		return true
 	}
 	for _, a := range t.Args {
@@ -183,6 +185,11 @@ func (d *Demand) proveEntry(fn *FuncInfo, r *Formula, depth int) *Failure {
 		for _, cs := range d.A.callers[fn] {
 			for _, sn := range cs.Snaps {
 				g := mapToCaller(r, fn, sn)
+				if d.ExemptCall != nil {
+					if g2 := d.ExemptCall(cs, g); g2 != nil {
+						g = g2
+					}
+				}
 				if f := d.proveSnap(cs, sn, g, depth); f != nil {
 					fail = f
 					break
